@@ -1,5 +1,6 @@
 from common import *
 import re
+import hashlib
 
 CONFIG = {
     'props_file': 'Props/C03.v',
@@ -11,7 +12,7 @@ CONFIG = {
     'extra_gen': [('harness-conc', 'conctab', 'Gen/ConcTab.v')],   # the lock table, regenerated from /repo's AST
     'coq_timeout': 2400,
     'run_timeout': {'quick': 900, 'thorough': 14400},
-    'vm_sample': {'quick': 400, 'thorough': 3000},
+    'vm_sample': {'quick': 500, 'thorough': 3500},
     'rule': 'three parts. (1) locks: per function of memmap.go and mem/{file,dir,dirmap}.go the sequence of lock operations '
             '(mu.Lock/RLock/Unlock/RUnlock, FileData mutexes, deferred or not, with the surrounding if/for/switch and the calls of '
             'lock-taking functions, log.Panic) extracted from the AST vs the table declared in Model/Conc.v. (2) pair matrix: every pair '
@@ -52,8 +53,10 @@ CONFIG = {
         'a pending writer does not block new readers of mu in the model (Go\'s writer preference is not modelled)',
         'a panic is recovered by the caller of the API method and the goroutine goes on (as the stress harness does)',
         'well-typed programs: each handle is used by one goroutine, each name consistently as file or directory',
-        'C03_quiescent_wf_fragment_partial reduces quiescent consistency to preservation by the SEQUENTIAL bodies '
-        '(hypotheses of the theorem; validated by C01\'s correspondence runs, not proved)',
+        'C03_quiescent_consistent: the class of the consistency clause is cc_wtq (Model/ConcClass.v): cc_wt_op + absolute names, '
+        'directory names as proper ancestors of every name a call may create, no RemoveAll/Rename of the root, no Rename below its '
+        'own source, the x targets of directory renames pairwise different and unused; a sample of the generated stress cases is '
+        're-checked to lie in that class (cc_case_wtq, vm_compute cross-check)',
     ],
 }
 
@@ -77,7 +80,7 @@ def canon_case(lines):
 
 # ---- vm_compute cross-check: predictions, table rows and explorations recomputed inside Coq ----
 COQ_HEADER = '''From Coq Require Import String.
-From AF Require Import Lib.Bytes Lib.Path Lib.Ops Gen.Consts Model.MemFile Model.MemFs Model.Conc.
+From AF Require Import Lib.Bytes Lib.Path Lib.Ops Gen.Consts Model.MemFile Model.MemFs Model.Conc Model.ConcClass.
 Local Open Scope string_scope.
 Definition p := cc_bytes.
 Definition vm_id (c : nat * bool) := fst c.
@@ -152,9 +155,14 @@ def coq_case(cid, lines, r):
         if m is None or m.startswith('<'):
             return None
         return '(%d%%nat, eqs (row "%s") (p "%s"))' % (i, hd[2], m)
-    if hd[0] == 'ccase' and 'pair' in hd:
+    if hd[0] == 'ccase' and ('pair' in hd or 'stress' in hd):
+        stress = 'stress' in hd
         d = dict(x.split('=', 1) for x in D.get(cid, '').split(' ') if '=' in x)
-        if 'runs' not in d or int(d['runs']) > 400 or d.get('cut') != 'false':
+        if stress:
+            # one generated stress case in forty: is it in the class of C03_quiescent_consistent_case?
+            if int(hashlib.sha1(cid.encode()).hexdigest(), 16) % 40 != 0:
+                return None
+        elif 'runs' not in d or int(d['runs']) > 400 or d.get('cut') != 'false':
             return None
         setup, pro, thr = [], {}, {}
         for l in lines[1:-1]:
@@ -167,6 +175,8 @@ def coq_case(cid, lines, r):
                 thr.setdefault(int(t[1]), []).append(_op(t[2:]))
         n = max(list(pro) + list(thr)) + 1
         progs = coq_list(['(%s, %s)' % (coq_list(pro.get(t, [])), coq_list(thr.get(t, []))) for t in range(n)])
+        if stress:
+            return '(%d%%nat, cc_case_wtq %s %s)' % (i, coq_list(setup), progs)
         cl = d['reach'].split(',')
         exp = '(%s, %s, %s)' % tuple('true' if c in cl else 'false' for c in ('panic', 'deadlock', 'inconsistent'))
         return ('(%d%%nat, let s := cc_explore 600 (cc_case_cfg %s %s) su0 in '
